@@ -2,7 +2,7 @@
 # One-time set-up after a fresh restore (offline): syntax-check every specification module and pre-build the
 # driver once so that a broken installation shows here and not in the first check.
 set -e
-cd /verif
+cd "$(dirname "$0")/.."
 mkdir -p out evidence
 for m in spec/*.tla; do
   ( cd spec && tla-sany "$(basename $m)" > ../out/sany-$(basename $m .tla).log 2>&1 ) || { echo "SANY failed on $m"; cat out/sany-$(basename $m .tla).log | tail -20; exit 1; }
